@@ -17,6 +17,7 @@ def run(rep):
     s2(rep, w)
     s3(rep, w)
     s4(rep, w)
+    s5(rep, w)
 
 
 def s1(rep, w):
@@ -282,3 +283,39 @@ def s4(rep, w):
     else:
         r.ok('close_upvalues examines every entry (no ordering assumption)')
         r.ok('ordering of insertions irrelevant')
+
+
+def s5(rep, w):
+    """the converse of S1: upvalues are closed only for slots that are about to be discarded. A variable whose slot stays live
+    (a suspended fiber's frame, a frame that continues after a call) must stay shared between its frame and the closures that
+    captured it; closing it early gives the closures a private copy and later writes on either side are lost."""
+    c = w.yarel
+    r = rep.rule('S5', 'every close_upvalues(i) is followed, on every path, by the value stack being lowered to i: variables whose slots stay live are never closed', floor=5)
+    LOWER = {STACK + 'truncate', STACK + 'clear', STACK + 'pop', 'yarel::vm::Vm::pop'}
+    for f in sorted(c.fns.values(), key=lambda x: x.path):
+        if f.path.startswith('yarel::object::ObjFiber::'):
+            continue   # close_upvalues_for_frame -> close_upvalues: the wrapper, counted at its callers
+        sites = [bi for bi, t in f.calls() if callee_name(t) in CLOSERS]
+        if not sites:
+            continue
+        org = origins(f)
+        lowers = {bi: callee_name(t) for bi, t in f.calls() if callee_name(t) in LOWER}
+        # removing the frame itself ends the life of every slot from its slot_base up (a finished fiber's stack is never read again)
+        frame_pops = {bi for bi, t in f.calls() if strip_generics(callee_name(t) or '') == 'std::vec::Vec::pop' and t['args'] and
+                      'frames' in operand_fields(f, org, t['args'][0])}
+        for bi in frame_pops:
+            lowers[bi] = 'frames.pop'
+        for n, cb in enumerate(sorted(sites)):
+            key = '%s / close #%d' % (f.path, n)
+            hit = c01.all_paths_hit(f, cb, set(lowers) - {cb})
+            if not r.check(bool(lowers) and hit, key,
+                           'open upvalues are closed although the stack slots they refer to are not discarded afterwards: the running (or suspended) frame keeps using '
+                           'the slot while every closure that captured the variable now has its own copy', f.loc(f.blocks[cb]['t'].get('sp'))):
+                continue
+            got = closer_identity(f, org, cb)
+            want = set()
+            for bi, name in lowers.items():
+                if bi in f.reachable_blocks(cb):
+                    want |= {('slot_base',)} if name == 'frames.pop' else height_identity(f, org, bi, name.replace('yarel::vm::Vm::pop', STACK + 'pop'))
+            r.check(bool(want & got), key + ' / closes exactly the dropped region', 'upvalues are closed from %s but the stack is only lowered to %s: variables below the new '
+                    'height that stay live are closed too' % (sorted(map(str, got))[:3], sorted(map(str, want))[:3]), f.loc(f.blocks[cb]['t'].get('sp')))
